@@ -721,7 +721,16 @@ def oracle_map(spec, stats=None):
     def stine():
         A, B = to_stinespring(S)
         return A, B
-    AB = guarded("superop_reps.to_stinespring", "to_stinespring", stine)
+    if not Jref.any():
+        # the zero map has no non-vanishing singular value: own stable signature
+        try:
+            AB = stine()
+        except Exception as e:
+            rep("superop_reps.to_stinespring", "to_stinespring:raises-%s:zero-map" % type(e).__name__,
+                "to_stinespring of the zero map raises %s: %s" % (type(e).__name__, str(e)[:120]))
+            AB = None
+    else:
+        AB = guarded("superop_reps.to_stinespring", "to_stinespring", stine)
     if AB is not None:
         A, B = AB
         dK = A.shape[0] // m if m else 0
@@ -1216,9 +1225,13 @@ RECT_2_3 = {"din": [2], "dout": [3], "kind": "cp1", "as_oper": True,
             "terms": [{"c": 1, "L": [[1, 0], [0, 0], [0, 1], [2, 0], [0, 0], [-1, 0]], "R": None}]}
 
 
+ZERO_MAP = {"din": [2], "dout": [2], "kind": "spre", "as_oper": False,
+            "terms": [{"c": 1, "L": [[0, 0]] * 4, "R": [[1, 0], [0, 0], [0, 0], [1, 0]]}]}
+
+
 def replay_witnesses(ctx):
     """The concrete witnesses of the C08_*_refuted theorems, on the real code."""
-    for spec in (ISO_2_4, IDENT_Q, YROT, RECT_2_3):
+    for spec in (ISO_2_4, IDENT_Q, YROT, RECT_2_3, ZERO_MAP):
         f = oracle_map(spec)
         report(ctx, f, spec)
         ctx.count_case(("witness", json.dumps(spec, sort_keys=True)))
